@@ -390,11 +390,14 @@ def run_plan(ctx, pid, tier):
         if not quick:
             c["N"] = int(c.get("N", 30)) + 4       # longer streams in the thorough tier
         return E.scaled(**c)
+    skip_design = os.environ.get("C1_SKIP_DESIGN") == "1"   # mutation testing of /repo copies only: the design stage does not read /repo
+    if skip_design:
+        names, mf_inv_skip = [], True
     futs = [(n, pool.submit(E.model_check, n, cfg_consts(n), inv)) for n in names]
     mf_consts = dict(W=5, Dict=3, Slots="{1,2}", Steps=(24 if quick else 34), NormKind='"%s"' % ab["NormKind"], MaxAge=(2 if quick else 3))
     mf_inv = {"C01": ["DeltaIsTrueDistance", "NoOverflow"], "C13": None, "C15": ["DeltaIsTrueDistance"]}[pid]
     mf_fut = None
-    if mf_inv:
+    if mf_inv and not skip_design:
         def mfrun():
             d, mod, cfg = core.write_model("MatchFinderPos", {k: str(v) for k, v in mf_consts.items()}, invariants=mf_inv)
             return core.run_tlc(mod, cfg, workers=3, cwd=d, timeout=1200)
@@ -432,7 +435,7 @@ def run_plan(ctx, pid, tier):
     # ---------------------------------------------------------------- regression probes: the regressed designs' counter-examples
     probes = []
     for flag, regressed, cfgs, pinv in REGRESSIONS:
-        if ab[flag] == regressed or pid == "C13":
+        if ab[flag] == regressed or pid == "C13" or skip_design:
             continue
         for n in (cfgs[:1] if quick else cfgs):
             c = E.scaled(**dict(E.SCALED_CFGS[n][0], **{flag: regressed, "N": 24}))
@@ -824,11 +827,13 @@ def c13_mt(ctx, tier, rnd, classes):
         return {"status": "mtlib absent"}
     quick = tier == "quick"
     scns, keys = [], []
-    n_sched = 25 if quick else 200
+    n_sched = 14 if quick else 120
     for fam in ("lzma2_writer", "lzip_writer"):
         for unit, total_units, cls in ((4096, 3, "mixed"), (5000, 4, "text")) if quick else ((4096, 3, "mixed"), (5000, 4, "text"), (8192, 5, "random")):
             total = unit * total_units - 700
-            for part in ([total], [1000, total - 1000], [unit] * (total // unit) + [total % unit]):
+            parts = [[total], [1000, total - 1000], [unit] * (total // unit) + [total % unit], [unit - 1, total - unit + 1],
+                     [unit - 100, 50, total - unit + 50], _ragged(rnd, total, [1, 97, unit - 300, unit + 1, 2 * unit - 5])]
+            for part in parts:
                 calls = [dict(op="write", n=n) for n in part if n > 0] + [dict(op="finish")]
                 for workers in (1, 2, 3, 4):
                     for s in range(n_sched if workers > 1 else 2):
